@@ -84,6 +84,11 @@ theorem C04_send_fails_closed_after_receivers_gone {fl : Flavour} (hrv : fl.fam 
       have : (stepOp fl s (.snd f h vs)).2 = blocksOut := by
         show (stepOpS fl s (.snd f h vs)).2.outOrBlocks = _; rw [hr]; rfl
       rw [this] at h1; simp [blocksOut] at h1
+    | stg t k h' sent rest =>
+      exfalso
+      have : (stepOp fl s (.snd f h vs)).2 = blocksOut := by
+        show (stepOpS fl s (.snd f h vs)).2.outOrBlocks = _; rw [hr]; rfl
+      rw [this] at h1; simp [blocksOut] at h1
     | _ => rw [hr] at c; simpa [sentOf] using c.symm
   show (stepOpS fl s (.snd f h vs)).1.buf = s.buf
   rw [a, hγ, append_nil]
@@ -164,6 +169,27 @@ def f17State : St :=
 theorem C04_fails_F17 :
     f17State.buf = [1] ∧
       (f17State, P.fin { tag := .disconnected }) ∈ micro pbS linCfg f17State (.brecv 3 .recv ⟨.rx, 1⟩ 0 []) := by
+  decide
+
+def sbA : Flavour := ⟨.sb, .spsc, 2, true⟩
+
+/-- N6 (spsc, concurrent specification only): `close_internal` of the sender stores `producer_dropped` and
+decrements `sender_count` in two steps (bounded_async.rs:37-40, bounded_sync.rs:51-54).  The state between
+the two is the first step of `drop s0`. -/
+def closeWindow : St := (start sbA linCfg (init sbA) 1 (.drop ⟨.tx, 0⟩)).1
+
+/-- N6: in that window the async batch receive (it tests the flag, bounded_async.rs:728) answers
+Disconnected while `try_recv` (it tests the count) still answers Empty — a receiver that observed
+Disconnected is told Empty afterwards (witness: findings/C04_N6_spsc_async_close_window.case; the harness
+signature is `spsc_async:<form>:not-disconnected-after-disconnected`).  Once the second step has run
+both answer Disconnected (`C04_disconnected_final_partial` covers the sequential model, where the two
+steps are one). -/
+theorem C04_fails_N6_spsc_close_window :
+    closeWindow.pd = true ∧ closeWindow.sc = 1 ∧
+    (start sbA linCfg closeWindow 2 (.rcv .recvBatch ⟨.rx, 0⟩ 1)).2 = P.fin { tag := .disconnected } ∧
+    (start sbA linCfg closeWindow 2 (.rcv .tryRecv ⟨.rx, 0⟩ 0)).2 = P.fin { tag := .empty } ∧
+    (microDet sbA linCfg closeWindow (.stg 1 11 ⟨.tx, 0⟩ [] [])).map (fun r => (r.1.sc, r.2)) =
+      some (0, P.fin { tag := .ok }) := by
   decide
 
 end Fv.Props.C04
